@@ -303,3 +303,21 @@ Proof.
     + rewrite (qcross_antisym u v).
       setoid_replace (mdet m * - qcross v u) with (- mdet m * qcross v u) by ring. apply scale_nonneg; exact K.
 Qed.
+
+(** satisfiability of the hypotheses of the transport theorems on non-trivial values *)
+Example span_transport_pos_ex :
+  0 < mdet (mkM 2 1 0 0 3 0) /\ in_span true (mvec (mkM 2 1 0 0 3 0) (1, 0)) (mvec (mkM 2 1 0 0 3 0) (0, 1)) (mvec (mkM 2 1 0 0 3 0) (1, 1)).
+Proof. split; [reflexivity|]. apply in_spanb_iff. vm_compute. reflexivity. Qed.
+Example span_transport_neg_ex :
+  mdet (mkM 0 1 0 1 0 0) < 0 /\ in_span (negb true) (mvec (mkM 0 1 0 1 0 0) (1, 0)) (mvec (mkM 0 1 0 1 0 0) (0, 1)) (mvec (mkM 0 1 0 1 0 0) (1, 1)).
+Proof. split; [reflexivity|]. apply in_spanb_iff. vm_compute. reflexivity. Qed.
+Example conic_transport_ex :
+  minv (mkM 2 1 3 0 3 (-1)) = Some (mkM (3 / 6) (- (1) / 6) (- (3 * 3 - 1 * -1) / 6) (- 0 / 6) (2 / 6) (- (- 0 * 3 + 2 * -1) / 6)) /\
+  on_conic (1, 2) (ellipse_conic 10 5 (3#5) (4#5)) (ellipse_pos 10 5 (3#5) (4#5) (1, 2) (5#13) (12#13)).
+Proof. split; [reflexivity|apply ellipse_pos_on_ex]. Qed.
+Example ellipse_extent_ex :
+  let X := ellipse_pos 10 5 (3#5) (4#5) (1, 2) (5#13) (12#13) in
+  (fst X - 1) * (fst X - 1) <= 10 * 10 * ((3#5) * (3#5)) + 5 * 5 * ((4#5) * (4#5)).
+Proof. apply (ellipse_extent_x 10 5 (3#5) (4#5) (1, 2) (5#13) (12#13)). reflexivity. Qed.
+Example arc_large_transport_ex : ~ mdet (mkM 0 1 0 1 0 0) == 0.
+Proof. intro H; discriminate H. Qed.
